@@ -137,7 +137,18 @@ type mbox struct {
 	sending  [2]bool // from the side's ENQ until the ACK of its block is delivered to it
 	awaitAck [2]bool
 	yielding [2]bool // the side answered EOT while its own ENQ was outstanding
-	attempts [2]int  // ENQs for the current block since the last reset
+	attempts [2]int  // ENQs for the current block since the last reset (ACK, successful yield, exhaustion)
+	rty      int     // configured retry limit of both ends
+	lastHdr  [2]string // header of the block transmitted last in the current run of attempts ("" none)
+	spent    [2]bool   // a failed attempt was seen with attempts >= RTY+1: the block is given up
+	spentHdr [2]string // ... its header ("" if it was never transmitted)
+	spentN   [2]int    // ... and its attempts
+	genSpent [2]bool   // the side exhausted a block in this link generation (its teardown is explained)
+	over     [2]bool   // an ENQ beyond RTY+1 with no failure seen (time-outs are invisible): decided by the next block
+	overHdr  [2]string
+	overBase [2]int
+	exceeded    string // a block requested more than RTY+1 times
+	gaveUpEarly string // a side closed its socket in the middle of a send before RTY+1 attempts
 	lastEnq  [2]time.Duration
 	t2side   [2]time.Duration // T2 of the equipment and of the host
 	// findings of the tracker
@@ -162,6 +173,7 @@ func (m *mbox) attach(pe, ph *sim.Conn) {
 	m.ends = [2]*sim.Conn{pe, ph}
 	m.enqOut, m.blockMd, m.sending, m.awaitAck, m.yielding = [2]bool{}, [2]bool{}, [2]bool{}, [2]bool{}, [2]bool{}
 	m.attempts = [2]int{}
+	m.lastHdr, m.spent, m.genSpent, m.over = [2]string{}, [2]bool{}, [2]bool{}, [2]bool{}
 	g := m.gen
 	m.mu.Unlock()
 	go m.relay(dEH, pe, ph, g)
@@ -237,6 +249,9 @@ func (m *mbox) relay(d int, src, dst *sim.Conn, gen int) {
 				// block send, that is the RTY-exhausted teardown
 				if errors.Is(err, io.EOF) && m.sending[d] {
 					m.failAttempts = append(m.failAttempts, [2]int{d, m.attempts[d]})
+					if !m.genSpent[d] && m.attempts[d] < m.rty+1 && m.gaveUpEarly == "" {
+						m.gaveUpEarly = fmt.Sprintf("side %s closed its socket in the middle of a block send after %d request(s) to send; RTY+1 = %d", dirName(d)[:1], m.attempts[d], m.rty+1)
+					}
 				}
 				m.live = false
 			}
@@ -279,6 +294,7 @@ func (m *mbox) cut(d int, acc []byte, gen int) (unit, []byte, bool) {
 			m.count[d]++
 			m.blockMd[d], m.enqOut[d], m.awaitAck[d] = false, false, true
 			m.blockTx[fmt.Sprintf("g%d %s %x", gen, dirName(d), data[1:11])]++
+			m.blockSent(d, string(data[1:11]))
 			m.trace = append(m.trace, u)
 			return u, data, true
 		}
@@ -295,6 +311,12 @@ func (m *mbox) cutLocked(d int, acc []byte, gen int) (unit, []byte, bool) {
 	case e4.ENQ:
 		m.enqOut[d], m.sending[d], m.awaitAck[d], m.yielding[d] = true, true, false, false
 		m.lastEnq[d] = m.w.Now()
+		if m.attempts[d] >= m.rty+1 && !m.over[d] {
+			// more than RTY+1 requests with no failed attempt seen in between (a T2 expiry is
+			// invisible on the line): either one attempt too many, or the block was given up and
+			// this is the next one — the next block transmission tells
+			m.over[d], m.overHdr[d], m.overBase[d] = true, m.lastHdr[d], m.attempts[d]
+		}
 		m.attempts[d]++
 		if m.attempts[d] > m.maxAttempts[d] {
 			m.maxAttempts[d] = m.attempts[d]
@@ -315,6 +337,9 @@ func (m *mbox) cutLocked(d int, acc []byte, gen int) (unit, []byte, bool) {
 		}
 		m.yielding[d] = false
 	case e4.NAK:
+		if m.yielding[d] { // the receive during the yield failed: that attempt counts
+			m.failedAttempt(d)
+		}
 		m.yielding[d] = false
 	default:
 		m.parseErrs = append(m.parseErrs, fmt.Sprintf("%s: a library wrote the non-protocol character %02x", dirName(d), acc[0]))
@@ -352,6 +377,37 @@ func (m *mbox) faultFor(u unit) *fault {
 	return nil
 }
 
+// failedAttempt: an attempt of side d visibly failed (non-ACK answer, or a failed receive
+// during a yield). With RTY+1 attempts made the block is given up.
+func (m *mbox) failedAttempt(d int) {
+	if m.attempts[d] >= m.rty+1 {
+		m.spent[d], m.spentHdr[d], m.spentN[d], m.genSpent[d] = true, m.lastHdr[d], m.attempts[d], true
+		m.attempts[d], m.lastHdr[d], m.over[d] = 0, "", false
+	}
+}
+
+// blockSent: side d transmits a block with this header; decides the deferred questions.
+func (m *mbox) blockSent(d int, hdr string) {
+	if m.spent[d] {
+		if m.spentHdr[d] == hdr && m.exceeded == "" {
+			m.exceeded = fmt.Sprintf("side %s transmitted block %x again after %d failed attempts; RTY+1 = %d", dirName(d)[:1], hdr, m.spentN[d], m.rty+1)
+		}
+		m.spent[d] = false
+	}
+	if m.over[d] {
+		if m.overHdr[d] == hdr {
+			if m.exceeded == "" {
+				m.exceeded = fmt.Sprintf("side %s requested to send block %x %d times; RTY+1 = %d", dirName(d)[:1], hdr, m.attempts[d], m.rty+1)
+			}
+		} else { // another block: the previous one was given up after RTY+1 attempts
+			m.genSpent[d] = true
+			m.attempts[d] -= m.overBase[d]
+		}
+		m.over[d] = false
+	}
+	m.lastHdr[d] = hdr
+}
+
 // delivered updates the tracker with one character that reaches the side `to`.
 func (m *mbox) delivered(to int, ch byte) {
 	switch {
@@ -361,7 +417,9 @@ func (m *mbox) delivered(to int, ch byte) {
 		m.awaitAck[to] = false
 		if ch == e4.ACK {
 			m.sending[to] = false
-			m.attempts[to] = 0
+			m.attempts[to], m.lastHdr[to], m.over[to], m.spent[to] = 0, "", false, false
+		} else {
+			m.failedAttempt(to)
 		}
 	}
 }
@@ -468,10 +526,10 @@ func (m *mbox) pause(d time.Duration) {
 	tm.Stop()
 }
 
-func (m *mbox) snapshot() (trace []unit, maxAtt [2]int, failAtt [][2]int, masterYielded string, parseErrs []string) {
+func (m *mbox) snapshot() (trace []unit, maxAtt [2]int, failAtt [][2]int, masterYielded, exceeded, gaveUpEarly string, parseErrs []string) {
 	m.mu.Lock()
 	defer m.mu.Unlock()
-	return append([]unit(nil), m.trace...), m.maxAttempts, append([][2]int(nil), m.failAttempts...), m.masterYielded, append([]string(nil), m.parseErrs...)
+	return append([]unit(nil), m.trace...), m.maxAttempts, append([][2]int(nil), m.failAttempts...), m.masterYielded, m.exceeded, m.gaveUpEarly, append([]string(nil), m.parseErrs...)
 }
 
 // checkChunks cross-checks the relay's protocol-driven unit boundaries against the
